@@ -217,3 +217,109 @@ Definition scase_typeahead (c : scase) : bool :=
   let '(_, items, kt, _) := c in
   negb (zlen (spec_user (dec_of kt) false true (map SItem (fst (split_da1 items)))) =? 0).
 Definition c03_startup_known (cases : list scase) : list Z := bad_indices scase_typeahead cases.
+
+(* ---------- stream "size": size requests (VAXIS_FORCE_XTWINOPS) on one real Vaxis ---------- *)
+(* History: start-up on a terminal that reports its size (CSI 14 t / CSI 18 t answered, no in-band
+   reports), then rounds.  In a round the terminal has some size, the application calls Resize()
+   and Render() (reportWinsize writes the request), the terminal's bytes for the round (its two
+   reports, user input around them; possibly nothing: the request times out after 100 ms) are
+   handled, Render returns.  Observation of a round: the Resize event that Render posted (None: no
+   event).  Input: capability bits, the state after start-up, the size announced at start-up
+   (cols, rows); the oracle tables. *)
+Definition zround := (list step * option size)%type.
+Definition zcase := ((list bool * snap * (Z * Z)) * list zround * (keytab * b64tab))%type.
+
+Definition win_same (win : Z * Z) (z : size) : bool := (s_cols z =? fst win) && (s_rows z =? snd win).
+
+(* Render after Resize(): reportWinsize returns nextSize when a token is in chSizeDone, Render
+   announces it when it differs from winSize *)
+Definition announce (win : Z * Z) (z : size) : (Z * Z) * option size :=
+  if win_same win z then (win, None) else ((s_cols z, s_rows z), Some z).
+
+(* one round of the model: a token already in chSizeDone is taken at once (before the terminal's
+   bytes of this round are handled); otherwise the bytes are handled first and the token they
+   leave is taken; no token: the 100 ms deadline, nothing announced *)
+Definition zround_model (dec : item -> ikey) (b64 : list Z -> option (list Z))
+    (s : vxstate) (win : Z * Z) (steps : list step) : option (vxstate * (Z * Z) * option size) :=
+  if 0 <? size_done s then
+    let z := next_size s in
+    match run_steps dec b64 (app_step s ATakeSize) steps with
+    | Ok s' _ => let '(w, o) := announce win z in Some (s', w, o)
+    | _ => None
+    end
+  else
+    match run_steps dec b64 s steps with
+    | Ok s' _ =>
+        if 0 <? size_done s' then
+          let '(w, o) := announce win (next_size s') in Some (app_step s' ATakeSize, w, o)
+        else Some (s', win, None)
+    | _ => None
+    end.
+
+Definition osize_eqb (a b : option size) : bool :=
+  match a, b with
+  | Some x, Some y => size_eqb x y
+  | None, None => true
+  | _, _ => false
+  end.
+
+Fixpoint zrounds_model (dec : item -> ikey) (b64 : list Z -> option (list Z))
+    (s : vxstate) (win : Z * Z) (rs : list zround) : bool :=
+  match rs with
+  | [] => true
+  | (steps, obs) :: t =>
+      match zround_model dec b64 s win steps with
+      | Some (s', w, o) => osize_eqb o obs && zrounds_model dec b64 s' w t
+      | None => false
+      end
+  end.
+
+Definition zcase_mismatch (c : zcase) : bool :=
+  let '((bits, sn0, win), rs, (kt, bt)) := c in
+  negb (zrounds_model (dec_of kt) (b64_of bt) (state_of_snap (caps_of_bits bits) None sn0) win rs).
+
+(* the terminal's side of a round: the size its reports of this round state (CSI 4;h;w t the
+   pixels, CSI 8;h;w t the characters; None: it did not report its characters) *)
+Definition size_report (it : item) : option (Z * Z * Z) :=
+  match it with
+  | ICsi [] ((t :: _) :: (h :: _) :: (w :: _) :: _) 116 => Some (t, h, w)
+  | _ => None
+  end.
+Definition reported_step (acc : option (Z * Z) * (Z * Z)) (st : step) : option (Z * Z) * (Z * Z) :=
+  match st with
+  | SItem it =>
+      match size_report it with
+      | Some (t, h, w) => if t =? 4 then (fst acc, (w, h)) else if t =? 8 then (Some (w, h), snd acc) else acc
+      | None => acc
+      end
+  | SApp _ => acc
+  end.
+Definition reported (pix : Z * Z) (steps : list step) : option (Z * Z) * (Z * Z) :=
+  fold_left reported_step steps (None, pix).
+
+(* the property on one observation, without the model: a size reply answers its own request.
+   The Resize event of a round carries the size the terminal reported IN THAT ROUND (after the
+   request), whenever it differs from the size announced last; no event otherwise.  Stated for
+   histories in which every character-size report is the answer to a request (one per round, no
+   unsolicited ones: those are the recorded finding C10 stale-size-token) *)
+Fixpoint zspec (win : Z * Z) (pix : Z * Z) (rs : list zround) : bool :=
+  match rs with
+  | [] => true
+  | (steps, obs) :: t =>
+      let '(chars, pix') := reported pix steps in
+      match chars with
+      | None => osize_eqb obs None && zspec win pix' t
+      | Some (c, r) =>
+          let z := mkSize c r (fst pix') (snd pix') in
+          if win_same win z then osize_eqb obs None && zspec win pix' t
+          else osize_eqb obs (Some z) && zspec (c, r) pix' t
+      end
+  end.
+
+Definition zcase_violation (c : zcase) : bool :=
+  let '((_, sn0, win), rs, _) := c in
+  let '(_, _, _, (_, _, x, y), _, sd, _, _, _) := sn0 in
+  negb (zspec win (x, y) rs).
+
+Definition c03_size_mismatches (cases : list zcase) : list Z := bad_indices zcase_mismatch cases.
+Definition c03_size_violations (cases : list zcase) : list Z := bad_indices zcase_violation cases.
